@@ -9,6 +9,7 @@ import (
 
 	"github.com/canopy-network/canopy/fsm"
 	"github.com/canopy-network/canopy/lib"
+	"github.com/canopy-network/canopy/store"
 	"github.com/canopy-network/canopy/lib/crypto"
 
 	"verifharness/env"
@@ -244,6 +245,7 @@ type world struct {
 	nodeKey   int
 	lastStage string
 	sanity    map[string]cert
+	primes    []tcase // honest non-committing certificates shown to every fresh node before the cases
 	quick     bool
 }
 
@@ -582,7 +584,9 @@ func (w *world) feed(n *env.Node, qc *lib.QuorumCertificate, syncing bool) outco
 			o.problems = append(o.problems, fmt.Sprintf("rejected but FSM height moved %d -> %d", h, n.Height()))
 		}
 		// nothing readable at the height under test (through the node and through a fresh view of the database)
-		env.PurgeProcessCaches()
+		// only the block LRU: the signature cache of a real node persists across messages, and a
+		// certificate must not become acceptable because of what the node verified before
+		store.VerifC09PurgeBlockCache()
 		if br, e2 := n.FSM().LoadBlock(h); e2 == nil && br != nil && br.BlockHeader != nil && br.BlockHeader.Height == h {
 			o.problems = append(o.problems, fmt.Sprintf("rejected but a block is readable at height %d", h))
 		}
